@@ -152,3 +152,47 @@ for _c in REGISTRY[D + '::Driver.get_constraint_values']:
     _c.canaries = [('reported array is a view of the shared constraint vector', ('con_dict[name] = con_vec[name].copy()', 'con_dict[name] = con_vec[name]'), 'post'),
                    ('lower violation measured from the upper bound', ('np.where(con_val < lower, con_val - lower,', 'np.where(con_val < lower, con_val - upper,'), 'post'),
                    ('satisfied elements keep their value', ('con_val - upper, 0.0))', 'con_val - upper, con_val))'), 'post'), ('driver scaling adds nothing', ('con_val *= scaler', 'con_val *= 1.0'), 'post')]
+
+
+# ---- Driver._compute_con_viol (find_feasible): the violation vector is [linear violations, nonlinear violations], read
+# AFTER the model was run at the design x_new that was handed in ------------------------------------------------------
+def _cv_order(tag):
+    def g(it, env, res):
+        it.ctx.ghost['order'] = list(it.ctx.ghost.get('order', [])) + [tag]
+    return g
+
+
+def _cv_gcv(it, env, res):
+    kw = it.last_assumed_kwargs
+    tag = 'viol:%s:%s' % (kw.get('lintype'), kw.get('viol'))
+    it.ctx.ghost['order'] = list(it.ctx.ghost.get('order', [])) + [tag]
+    it.ctx.ghost['scaling_passed'] = list(it.ctx.ghost.get('scaling_passed', [])) + [kw.get('driver_scaling')]
+    it.ctx.ghost['ret_' + str(kw.get('lintype'))] = res
+
+
+contract(D + '::Driver._compute_con_viol', ['C22'],
+         dict(self=Obj('Driver', _exc_info=None, iter_count=Int(0, None),
+                       _problem=Callable(Obj('Problem', model=Obj('Group', _relevance=OpaqueT('relevance'), comm=OpaqueT('comm')))),
+                       _vectors=DictT({'design_var': OpaqueT('dv_vec')}), _cons=OpaqueT('cons')),
+              x_new=Arr('nx'), desvar_names=OpaqueT('names'), driver_scaling=OneOf(True, False)),
+         ensures=["ghost('order') == ['set_data', 'set_design_vars', 'run', 'viol:linear:True', 'viol:nonlinear:True']",
+                  # both reads use the scaling mode the caller asked for
+                  "ghost('scaling_passed') == [driver_scaling, driver_scaling]",
+                  # linear violations first, then the nonlinear ones, nothing else
+                  "len(result) == len(ghost('ret_linear')['a']) + len(ghost('ret_nonlinear')['a'])",
+                  "all(result[i] == ghost('ret_linear')['a'][i] for i in range(len(ghost('ret_linear')['a'])))",
+                  "all(result[len(ghost('ret_linear')['a']) + i] == ghost('ret_nonlinear')['a'][i] for i in range(len(ghost('ret_nonlinear')['a'])))",
+                  'self.iter_count == old(self.iter_count) + 1'],
+         modifies=['self.iter_count'], returns=Arr('nr'),
+         ghost_init={'order': [], 'scaling_passed': [], 'ret_linear': None, 'ret_nonlinear': None},
+         assumed={'dv_vec.set_data': Assumed(ghost=_cv_order('set_data'), requires=['same_object(arg0, x_new)']),
+                  'self._set_design_vars': Assumed(ghost=_cv_order('set_design_vars')),
+                  'with RecordingDebugging': (Assumed(), Assumed()),
+                  'model.comm.Bcast': Assumed(note='MPI broadcast (single process: unchanged)'),
+                  'with model._relevance.nonlinear_active': (Assumed(), Assumed()),
+                  'self._run_solve_nonlinear': Assumed(ghost=_cv_order('run')),
+                  'self._get_name': Assumed(returns=OpaqueT('name')),
+                  'self.get_constraint_values': Assumed(returns=DictT({'a': Arr('n1')}), ghost=_cv_gcv,
+                                                        note='the contract above (one constraint slice); here only WHICH values are asked for and where they go')},
+         name=D + '::Driver._compute_con_viol', defs={'opaque_classes': ['RecordingDebugging']},
+         canaries=[('nonlinear violations first', ('list(lin_con_viol_dict.values()) +\n                                   list(nl_con_viol_dict.values())', 'list(nl_con_viol_dict.values()) +\n                                   list(lin_con_viol_dict.values())'), 'post')])
